@@ -192,11 +192,14 @@ func runPeek(rc *RunCtx) *Violation {
 			var pk, rp lexer.Token
 			var cur int
 			var rc2 lexer.RawCursor
+			// observe on a by-value copy (what the parser's Branch does): looking must not change
+			// what a later operation on the original sees
+			tmp := c.pl
 			if p := catch(func() {
-				pk = *c.pl.Peek()
-				rp = *c.pl.RawPeek()
-				cur = c.pl.Cursor()
-				rc2 = c.pl.RawCursor()
+				pk = *tmp.Peek()
+				rp = *tmp.RawPeek()
+				cur = tmp.Cursor()
+				rc2 = tmp.RawCursor()
 			}); p != "" {
 				return viol(op, "observe-panic", fmt.Sprintf("copy %d: %s", ci, p))
 			}
@@ -228,7 +231,13 @@ func runPeek(rc *RunCtx) *Violation {
 		var v *Violation
 		switch name {
 		case "Peek":
-			// covered by observe
+			var got lexer.Token
+			if p := catch(func() { got = *c.pl.Peek() }); p != "" {
+				return viol(name, "panic", p)
+			}
+			if want := m.toks[m.peekIdx(c.raw)]; got != want {
+				return viol(name, "result", fmt.Sprintf("copy %d raw=%d: Peek()=%v want %v", ci, c.raw, got.GoString(), want.GoString()))
+			}
 		case "Next":
 			var got lexer.Token
 			if p := catch(func() { got = *c.pl.Next() }); p != "" {
@@ -245,6 +254,13 @@ func runPeek(rc *RunCtx) *Violation {
 				rc.probe("Next at EOF")
 			}
 		case "RawPeek":
+			var got lexer.Token
+			if p := catch(func() { got = *c.pl.RawPeek() }); p != "" {
+				return viol(name, "panic", p)
+			}
+			if want := m.toks[c.raw]; got != want {
+				return viol(name, "result", fmt.Sprintf("copy %d raw=%d: RawPeek()=%v want %v", ci, c.raw, got.GoString(), want.GoString()))
+			}
 		case "PeekAny", "PeekAnyFF":
 			pr := peekPreds[simrt.Choose(len(peekPreds))]
 			var got lexer.Token
@@ -292,6 +308,9 @@ func runPeek(rc *RunCtx) *Violation {
 				}
 			}
 		case "Cursor":
+			if got, want := c.pl.Cursor(), m.cursor(c.raw); got != want {
+				return viol(name, "result", fmt.Sprintf("copy %d raw=%d: Cursor()=%d want %d", ci, c.raw, got, want))
+			}
 		case "MakeCheckpoint":
 			if len(ckpts) < 16 {
 				cp := c.pl.MakeCheckpoint()
